@@ -148,6 +148,24 @@ bool recv_exact(NativeSocket socket,
     return true;
 }
 
+// Reverses the daemon's escaping of line breaks and backslashes inside field values.
+std::string unescape_field_value(const std::string& value) {
+    std::string plain;
+    plain.reserve(value.size());
+    for (std::size_t i = 0; i < value.size(); ++i) {
+        if (value[i] == '\\' && i + 1 < value.size()) {
+            const char next = value[i + 1];
+            if (next == 'n' || next == 'r' || next == '\\') {
+                plain.push_back(next == 'n' ? '\n' : next == 'r' ? '\r' : '\\');
+                ++i;
+                continue;
+            }
+        }
+        plain.push_back(value[i]);
+    }
+    return plain;
+}
+
 ControlResponse parse_response(NativeSocket socket, const ControlTransferProgress* progress) {
     ControlResponse response{};
     std::string line;
@@ -181,7 +199,7 @@ ControlResponse parse_response(NativeSocket socket, const ControlTransferProgres
                 break;
             }
         } else {
-            response.fields[key] = value;
+            response.fields[key] = unescape_field_value(value);
         }
     }
 
